@@ -9,7 +9,7 @@ import z3
 
 from .. import kernels as K
 from .. import stubs
-from ..harness import Check, Enc, Obligation, all_eq, cells, eqs, symlike
+from ..harness import Check, Enc, Inconclusive, Obligation, all_eq, cells, eqs, symlike
 from ..jx2smt import root_key, sym_array
 
 TECH = ("jaxprs of iwls_utils.solve/mvn_log_prob/mvn_sample and of the RW/IWLS/MH kernels' _standard_transition (callees re-bound to verif_stub, "
@@ -100,11 +100,11 @@ def lp_pois(s):
     return jnp.sum(s["y"] * x - jnp.exp(x)) - 0.5 * s["tau"] * jnp.sum(x) ** 2
 
 
-def iwls_glue(chk, n, user_chol):
+def iwls_glue(chk, n, user_chol, adaptive=False):
     import liesel.goose as gs
     import liesel.goose.iwls as iwls
     from liesel.goose.epoch import EpochConfig, EpochType
-    name = f"IWLS[n={n}{',chol_info_fn' if user_chol else ''}]"
+    name = f"IWLS[n={n}{',chol_info_fn' if user_chol else ''}{',adaptation epoch' if adaptive else ''}]"
 
     def real_chol(x, tau):
         F = jnp.diag(jnp.exp(x)) + tau
@@ -114,15 +114,17 @@ def iwls_glue(chk, n, user_chol):
         return stubs.stub("chol_info", (ms["x"], ms["tau"]), jnp.eye(n), real=real_chol)
     k = iwls.IWLSKernel(["x"], chol_info_fn=chol_fn if user_chol else None)
     k.set_model(gs.DictInterface(lp_pois))
-    ep = EpochConfig(EpochType.POSTERIOR, 10, 1, None).to_state(1, 0)
+    ep = EpochConfig(EpochType.FAST_ADAPTATION if adaptive else EpochType.POSTERIOR, 10, 1, None).to_state(1, 0)
 
     def g(key, ss, x, y, tau):
         with stub_iwls_callees() if not stubs.SPY["on"] else stub_iwls_callees():
-            out = k._standard_transition(key, iwls.IWLSKernelState(ss), {"x": x, "y": y, "tau": tau}, ep)
+            # the transition used in adaptation epochs proposes, corrects and accepts exactly like the standard one (it only tunes afterwards)
+            out = (k._adaptive_transition if adaptive else k._standard_transition)(key, iwls.IWLSKernelState(ss), {"x": x, "y": y, "tau": tau}, ep)
         return dict(acc=out.info.acceptance_prob, x=out.model_state["x"], moved=out.info.position_moved, code=out.info.error_code)
     key = jax.random.PRNGKey(5)
-    ss, tau = z3.Real(f"s_{n}{int(user_chol)}"), z3.Real(f"tau_{n}{int(user_chol)}")
-    x, y = sym_array(f"x_{n}{int(user_chol)}", (n,)), sym_array(f"y_{n}{int(user_chol)}", (n,))
+    sfx = f"{n}{int(user_chol)}{'a' if adaptive else ''}"
+    ss, tau = z3.Real(f"s_{sfx}"), z3.Real(f"tau_{sfx}")
+    x, y = sym_array(f"x_{sfx}", (n,)), sym_array(f"y_{sfx}", (n,))
     dom = {ss.decl().name(): (0.2, 1.0), tau.decl().name(): (0.2, 1.5)}
     enc = chk.note_enc(Enc(name, g, (key, 0.5, jnp.zeros(n) + 0.1, jnp.ones(n), 1.0), (root_key("k"), sc(ss), x, y, sc(tau)), chol="contract",
                            key_roots={"k": key}, domain=dom))
@@ -143,6 +145,8 @@ def iwls_glue(chk, n, user_chol):
             return (a1, o1[0]), (a2, o2[0])
         if V.replay:
             return None
+        if len(V.I.chols) != 2:
+            raise Inconclusive(f"expected two information factorizations (current point, proposal), the trace has {len(V.I.chols)}")
         (A1, L1), (A2, L2) = V.I.chols
         return (A1, L1), (A2, L2)
 
@@ -623,7 +627,7 @@ def main():
         obs += lemmas(chk, n)
     # the modular glue needs the kernel to call iwls_utils.solve / mvn_sample / mvn_log_prob by these names; if a refactoring removes them the
     # glue is reported as not applicable (inconclusive) and only the whole-transition obligation below speaks
-    for nm, fn, args in [(f"iwls-glue:{n}", iwls_glue, (chk, n, False)) for n in ([2] if chk.tier == "quick" else [1, 2, 3])] + [("iwls-glue:user-chol", iwls_glue, (chk, 2, True)),
+    for nm, fn, args in [(f"iwls-glue:{n}", iwls_glue, (chk, n, False)) for n in ([2] if chk.tier == "quick" else [1, 2, 3])] + [("iwls-glue:user-chol", iwls_glue, (chk, 2, True)), ("iwls-glue:adaptive", iwls_glue, (chk, 2, False, True)),
                                                                                                                             ("iwls-multikey", iwls_multikey, (chk,))]:
         try:
             obs += fn(*args)
